@@ -8,9 +8,14 @@ CONFIG = {'gen': ['NbtnsLocks'],
          "sets + 'result unchanged at the end' flags vs the atomic-map spec (property); (b) concurrent executions: 2-4 goroutines, <= 12 "
          'calls in total, recorded with invocation/response stamps in a child process built with -race, every recorded history decided by '
          'the Lean op `linz`; distinct = distinct input line; non-trivial = implementation output is a non-empty value',
- 'assumptions': ['each method of NetBIOSNameServer is one atomic step: justified by the extracted lock facts (first statement '
-                 'mu.Lock/RLock, deferred matching unlock, no early unlock, writers hold the write lock) and the contract of sync.RWMutex; '
-                 "Go's scheduler itself is not modelled",
+ 'assumptions': ['sync.RWMutex has the enabling conditions of the lock machine (Model/RWLock.lean, Lock.canAcquire): Lock() proceeds iff '
+                 'no reader and no writer holds the mutex, RLock() proceeds iff no writer holds it; writer preference and fairness are not '
+                 'assumed (they only remove schedules). The bodies of the six Go methods are, between the lock call and the deferred '
+                 'unlock the extractor found, the micro-steps of Model/C17Locks.lean (look up / update / ...): their composition is proved '
+                 'equal to the sequential model `step`, which the correspondence runs tie to the code; the split into micro-steps itself '
+                 'and the Go memory model below it (accesses under the mutex are sequentially consistent; a data race would void this) are '
+                 "assumed. Given these, atomicity of a method is a theorem (rwlock_serializable), not an assumption; Go's scheduler is "
+                 "covered as 'any schedule'",
                  'time is abstracted to the sign of the ttl argument; the harness uses +-1h so the wall clock never decides',
                  'addresses are classes of net.IP.Equal; names are opaque strings; NameType values other than Unique/Group are outside the '
                  'alphabet',
@@ -18,20 +23,37 @@ CONFIG = {'gen': ['NbtnsLocks'],
                  'growth rule is unobservable',
                  'race detector: built on the fly with `go build -race` (needs cgo/gcc, available offline here); if that build fails the '
                  'run says so in evidence.extra.concurrent.race_build and the concurrent part runs without it'],
- 'trusted': ['sync.RWMutex', 'Go race detector (looks for races on the executed schedules, does not exclude them)'],
+ 'trusted': ['sync.RWMutex: the two enabling conditions above (safety part of its contract) and the Go memory model for accesses under it',
+             'Go race detector (looks for races on the executed schedules, does not exclude them)'],
  'technique': 'Lean 4 proof: induction over operation sequences on a hand model (value level + slice/heap level), refinement to an '
-              'atomic-map specification, extracted lock facts decided by the kernel, proved-correct Wing-Gong linearizability checker '
-              'applied to recorded concurrent executions; model tied to the Go code by differential correspondence',
+              'atomic-map specification, extracted lock facts decided by the kernel; a generic small-step interleaving semantics of '
+              'critical sections under a readers-writer lock (threads, micro-steps, arbitrary schedules) with mutual exclusion proved as '
+              'an invariant and serializability proved by forward simulation (linearization point = the acquire event), instantiated with '
+              'the six methods split into look-up/update micro-steps whose lock modes are checked against the regenerated lock kinds; '
+              'proved-correct Wing-Gong linearizability checker applied to recorded concurrent executions; model tied to the Go code by '
+              'differential correspondence',
  'level_text': 'Theorems inv_init/inv_step/inv_reachable (ownership invariant for every history of any length), refines/refines_history '
                '(the table is the atomic map of the specification, equal results), no_panic_reachable, holds_frame + register_ok_holds + '
                'release_ok_not_holds (owners = registered and not released), unique_no_takeover, heap_refines/heap_refines_history '
                '(Go-slice model = value model), query_result_is_current, query_result_is_copy (later updates never change a returned '
                'result; alias_would_leak shows the copy is what makes it true), lock_discipline/writers_take_write_lock/query_copies '
                '(facts regenerated from nbtns.go, decided by the kernel), linz_iff (the checker used on concurrent executions is sound and '
-               'complete) are proved in Lean for all inputs about a hand-written model of nbtns.go; the model is tied to the code by '
-               'running both on the same histories on every run.',
- 'level_note': 'PARTIAL for schedules: histories (all lengths) are proved; concurrent interleavings are not modelled below method '
-               'granularity. Atomicity of a method is an assumption resting on the extracted lock facts and sync.RWMutex; the harness '
-               'observes 2-4 goroutines under the race detector and checks every recorded history for linearizability with the proved '
-               'checker, which bounds but does not prove the concurrent clause. Trusted: Lean kernel; axioms propext, Classical.choice, '
-               'Quot.sound; hand model tied by differential testing (bounded); extractor tools/extract/nbtns_locks.go.'}
+               'complete); and for EVERY interleaving of any number of threads below method granularity: rwlock_mutual_exclusion (a writer '
+               'inside its critical section is alone, readers overlap only with readers, the lock word is exact), '
+               'rwlock_writer_uninterrupted, rwlock_reader_sees_stable_state, rwlock_serializable (every complete schedule of critical '
+               "sections made of micro-steps under a readers-writer lock with Go's enabling conditions equals some sequential order of "
+               'whole critical sections: same final state, same result for every call, real-time order respected; linearization point = '
+               'acquire), critical_sections_compose_to_step (the look-up/update micro-steps of the six methods compose to the sequential '
+               'model), critical_section_modes_are_the_source_lock_kinds (writer/reader = Lock/RLock as regenerated from nbtns.go), '
+               'name_table_interleavings_are_sequential_histories and name_table_linearizable_under_lock_discipline (every interleaving is '
+               'Linearizable, ends in a table satisfying the invariant and answers every call as the atomic map does), '
+               'write_under_read_lock_is_not_serializable (RegisterName under RLock lets two registrations of a unique name both succeed) '
+               'are proved in Lean for all inputs about a hand-written model of nbtns.go; the model is tied to the code by running both on '
+               'the same histories on every run.',
+ 'level_note': "Schedules: every interleaving of the methods' micro-steps is proved equivalent to a sequential history, for the lock "
+               "machine of Model/RWLock.lean. What is assumed instead of 'a method is atomic' is exactly: sync.RWMutex's two enabling "
+               'conditions, and that the Go bodies perform the modelled micro-steps between the lock calls the extractor found (plus the '
+               'Go memory model for race-free programs). The harness still observes 2-4 goroutines under the race detector and checks '
+               'every recorded history with the proved checker; that now serves as a test of these assumptions. Trusted: Lean kernel; '
+               'axioms propext, Classical.choice, Quot.sound; hand model tied by differential testing (bounded); extractor '
+               'tools/extract/nbtns_locks.go.'}
